@@ -60,6 +60,10 @@ func (Account) GetModuleAccount(context.Context, string) sdk.ModuleAccountI { re
 
 var ErrInsufficientFunds = errors.New("insufficient funds")
 
+// ErrInvalidCoins: x/bank (v0.50.4 keeper/send.go subUnlockedCoins/addCoins) rejects coin sets that
+// are not valid: unsorted, duplicate denominations, or a non-positive amount.
+var ErrInvalidCoins = errors.New("invalid coins")
+
 type Bank struct {
 	Bal    map[string]math.Int // string(addr)+"/"+denom
 	Supply map[string]math.Int
@@ -109,6 +113,9 @@ func (b *Bank) Fund(a sdk.AccAddress, denom string, v math.Int) {
 }
 
 func (b *Bank) send(from, to sdk.AccAddress, amt sdk.Coins) error {
+	if !amt.IsValid() {
+		return ErrInvalidCoins
+	}
 	for _, c := range amt {
 		if b.Balance(from, c.Denom).LT(c.Amount) {
 			return ErrInsufficientFunds
@@ -131,6 +138,9 @@ func (b *Bank) mod(name string) sdk.AccAddress {
 
 func (b *Bank) MintCoins(_ context.Context, moduleName string, amt sdk.Coins) error {
 	a := b.mod(moduleName)
+	if !amt.IsValid() {
+		return ErrInvalidCoins
+	}
 	for _, c := range amt {
 		b.Fund(a, c.Denom, c.Amount)
 	}
@@ -139,6 +149,9 @@ func (b *Bank) MintCoins(_ context.Context, moduleName string, amt sdk.Coins) er
 
 func (b *Bank) BurnCoins(_ context.Context, moduleName string, amt sdk.Coins) error {
 	a := b.mod(moduleName)
+	if !amt.IsValid() {
+		return ErrInvalidCoins
+	}
 	for _, c := range amt {
 		if b.Balance(a, c.Denom).LT(c.Amount) {
 			return ErrInsufficientFunds
